@@ -4,6 +4,7 @@ import (
 	"bytes"
 	"io"
 	"net"
+	"os"
 	"sync"
 
 	"github.com/tidwall/btree"
@@ -34,6 +35,10 @@ func vhServer() *Server {
 		mu:           &rwmutex{},
 	}
 	s.config = &Config{}
+	if vnative() {
+		// READONLY / CONFIG REWRITE write the configuration file (a no-op stub in the engine)
+		s.config.path = os.TempDir() + "/verif-tile38-config"
+	}
 	s.pubq = pubQueue{cond: sync.NewCond(&sync.Mutex{})}
 	s.monconns = make(map[net.Conn]bool)
 	s.pubsub = newPubsub()
